@@ -16,11 +16,40 @@ applied through that node's __setstate__; the independent walker
 clauses.  If it does, at least one checker must raise AssertionError; if it
 does not (e.g. a key moved inside its range) both must still accept.  The
 node is then restored through __setstate__ (the restoration is verified).
+
+Part 2d (reject, deep): the same catalogue on trees of 2, 3 and 4 levels (node
+sizes (2,2), (2,3), (3,3); ascending / descending / thinned fills) whose keys
+leave a free value between any two neighbours, on EVERY node and leaf found by
+descent (every position of every level, the right-most spine included), plus
+  * an EMPTY NODE as an additional child ("non-emptiness of nodes"): at each
+    position 0..len(children) of each interior node an empty node of the
+    tree's own class (no children, no first bucket) - resp. an empty leaf,
+    linked to its successor, under a bottom-level node - with a separator that
+    lies strictly between the neighbouring keys (at the right end: larger than
+    every key of the subtree), so that nothing but non-emptiness is broken;
+  * containment against the range inherited from ANCESTORS: a replaced key /
+    separator that still satisfies the separators of the DIRECT parent of
+    every node (judged by local_containment_ok) but not the range promised
+    further up is reported under its own name (`...-vs-ancestor-bound`).
+
+Part 3 (accept, in a database): trees of 2, 3 and 4 levels are stored through
+rtc.stubdb (a stated model of a ZODB connection), committed, and both checkers
+are called - each of them FIRST in turn, before anything else has touched the
+nodes - when all nodes are ghosts (fresh connection; writer cache minimized /
+every node _p_deactivate()d), when only the root is loaded, when exactly one
+node (each interior node and each leaf in turn) or one whole level or all
+leaves / all interior nodes or a seeded subset have been deactivated, and when
+nothing is a ghost.  "accept every container produced through the public
+API": both must return.  An independent reader (harness.walk on its own
+connection) first confirms that the stored tree is well-formed and holds what
+the writer saw; if it is not, that is a C04/C06 matter and the case is not
+judged here.
 """
 import argparse
 import concurrent.futures as cf
 import multiprocessing
 import os
+import random
 
 from lib.common import Standin, Failure, write_standin
 from rtc import harness as H
@@ -143,6 +172,106 @@ def node_alterations(cfg, t, node, leaves):
         yield "empty-node", None, lambda: node.__setstate__(None)
 
 
+# ------------------------------------------ Part 2d: additional empty children
+MISSING = object()                                        # "no bound" (None is a legal key)
+
+
+def skey(k):
+    return (0, 0) if k is None else (1, k)
+
+
+def subtree_keys(cfg, x, tree_type):
+    """all keys below x (a leaf or an interior node), by descent"""
+    if type(x) is not tree_type:
+        return leaf_state(x, cfg.is_set)[0]
+    out = []
+    for k in node_state(x)[0]:
+        out += subtree_keys(cfg, k, tree_type)
+    return out
+
+
+def node_inserts(cfg, t, node, leaves, lo, hi):
+    """An additional EMPTY child at each position 0..len(children) of one
+    interior node: an empty node of the tree's own class (and, under a
+    bottom-level node, an empty leaf linked to the leaf that follows it).
+    (lo, hi): the range the node inherits (MISSING = unbounded).  The new
+    separator keeps order and containment intact: the smallest key of the
+    first child at the left end, a free value strictly between the keys on
+    both sides in the middle, a free value above every key of the subtree (and
+    below hi) at the right end; a position where no such value exists is
+    skipped (there is none with the gapped key universe of the deep sweep)."""
+    kids, seps, first = node_state(node)
+    tree_type = type(t)
+    bottom = type(kids[0]) is not tree_type
+    lows = [min(subtree_keys(cfg, k, tree_type), key=skey) for k in kids]
+    highs = [max(subtree_keys(cfg, k, tree_type), key=skey) for k in kids]
+    free = sorted((c for c in cfg.candidates if c is not None), key=skey)
+
+    def free_between(a, b):
+        """the smallest free value v with a < v < b (b MISSING: unbounded)"""
+        for v in free:
+            if skey(a) < skey(v) and (b is MISSING or skey(v) < skey(b)):
+                return v
+        return MISSING
+
+    def separators(i):
+        if i == 0:                                        # (empty) < x <= kid[0]
+            return [lows[0]] + seps
+        if i == len(kids):                                # kid[-1] < x <= (empty) < hi
+            x = free_between(highs[-1], hi)
+            return MISSING if x is MISSING else seps + [x]
+        s = seps[i - 1]
+        x = free_between(highs[i - 1], s)                 # kid[i-1] < x <= (empty) < s <= kid[i]
+        if x is not MISSING:
+            return seps[:i - 1] + [x, s] + seps[i:]
+        if skey(s) < skey(lows[i]):                       # kid[i-1] < s <= (empty) < x <= kid[i]
+            return seps[:i] + [lows[i]] + seps[i:]
+        return MISSING
+
+    def put(kd, sp, fb=first):
+        return lambda: node.__setstate__(node_tuple(kd, sp, fb))
+
+    for i in range(len(kids) + 1):
+        sp = separators(i)
+        if sp is MISSING:
+            continue
+        where = "left-end" if i == 0 else "right-end" if i == len(kids) else "middle"
+        yield "insert-empty-node@" + where, i, put(kids[:i] + [tree_type()] + kids[i:], sp)
+        if bottom:
+            nxt = kids[i] if i < len(kids) else leaf_state(kids[-1], cfg.is_set)[2]
+            leaf = cfg.leafcls()
+            leaf.__setstate__(leaf_tuple([], None if cfg.is_set else [], nxt))
+            yield "insert-empty-leaf@" + where, i, put(kids[:i] + [leaf] + kids[i:], sp)
+            if i == 0:
+                yield "insert-empty-leaf@left-end+firstbucket", i, put([leaf] + kids, sp, leaf)
+
+
+def local_containment_ok(cfg, t):
+    """Containment judged against the separators of the DIRECT parent only
+    (nothing is inherited from further up): every leaf key / every separator of
+    an interior child lies inside the slot its parent gives it.  Used to name a
+    containment violation that only the range inherited from ANCESTORS shows."""
+    tree_type = type(t)
+
+    def inside(vals, lo, hi):
+        return all((lo is MISSING or skey(lo) <= skey(v)) and (hi is MISSING or skey(v) < skey(hi)) for v in vals)
+
+    def rec(n):
+        kids, seps, _ = node_state(n)
+        for i, k in enumerate(kids):
+            lo = seps[i - 1] if i > 0 else MISSING
+            hi = seps[i] if i < len(seps) else MISSING
+            if type(k) is tree_type:
+                if k.__getstate__() is None:
+                    continue
+                if not inside(node_state(k)[1], lo, hi) or not rec(k):
+                    return False
+            elif not inside(leaf_state(k, cfg.is_set)[0], lo, hi):
+                return False
+        return True
+    return t.__getstate__() is None or rec(t)
+
+
 # ------------------------------------------------------------------ config
 class Config:
     def __init__(self, fam, kind, impl, sizes):
@@ -156,6 +285,7 @@ class Config:
         self.candidates = H.keys_of(fam, 14) + ([-1] if fam[0] in "ILO" else []) + ([None] if fam[0] == "O" else [])
         self.nfail = {}
         self.sample = None                                # one judged case, written out
+        self.kinds = set()                                # (alteration, clause, target, depth, levels) judged as corrupt
 
     def tag(self):
         return "%s%s%s sizes=%s" % (self.fam, self.kind, "Py" if self.impl == "py" else "", self.sizes)
@@ -225,14 +355,38 @@ def opinions(t, pkg_check):
     return out
 
 
-def sweep(cfg, h, pkg_check, failures):
-    """Part 2 for the tree built by history h.  -> (evaluations, corruptions judged, refused by __setstate__)"""
+def inherited_bounds(t):
+    """id(interior node) -> (lo, hi): the range promised to it by ALL its ancestors (MISSING = unbounded)"""
+    out = {}
+
+    def rec(n, lo, hi):
+        out[id(n)] = (lo, hi)
+        kids, seps, _ = node_state(n)
+        for i, k in enumerate(kids):
+            if type(k) is type(t):
+                rec(k, seps[i - 1] if i > 0 else lo, seps[i] if i < len(seps) else hi)
+    if t.__getstate__() is not None:
+        rec(t, MISSING, MISSING)
+    return out
+
+
+def sweep(cfg, h, pkg_check, failures, deep=False):
+    """Part 2 for the tree built by history h (deep: Part 2d, with the additional empty children and the
+    ancestor-bound naming).  -> (evaluations, corruptions judged, refused by __setstate__)"""
     t = cfg.build(h)
-    before = H.walk(t, cfg.is_set)[0]
+    before, _, levels = H.walk(t, cfg.is_set)
     nodes, leaves = collect(t)
     evals = ncorrupt = refused = 0
+    node_alts = node_alterations
+    if deep:
+        bounds = inherited_bounds(t)
+
+        def node_alts(cfg, t, node, leaves):
+            yield from node_alterations(cfg, t, node, leaves)
+            yield from node_inserts(cfg, t, node, leaves, *bounds[id(node)])
     targets = [(p, b, "leaf", leaf_alterations, lambda b=b: leaf_tuple(*leaf_state(b, cfg.is_set))) for p, b in leaves]
-    targets += [(p, n, "node", node_alterations, lambda n=n: node_tuple(*node_state(n))) for p, n in nodes]
+    targets += [(p, n, "node", node_alts, lambda n=n: node_tuple(*node_state(n))) for p, n in nodes]
+    width = {p: len(node_state(n)[0]) for p, n in nodes}
     for path, obj, what, alterations, snapshot in targets:
         orig = snapshot()
         for name, pos, apply in alterations(cfg, t, obj, leaves):
@@ -247,8 +401,16 @@ def sweep(cfg, h, pkg_check, failures):
             evals += 1
             rejected = "rejected" in says.values()
             where = {"target": what, "path": list(path), "alteration": name, "position": repr(pos), "checkers": says}
+            if deep:
+                where.update(levels=levels, depth=len(path),
+                             on_rightmost_spine=all(i == width[path[:d]] - 1 for d, i in enumerate(path)))
+                if broken and name in ("shift", "separator") and clause_of(broken) == "containment" and local_containment_ok(cfg, t):
+                    # consistent with the separators of every DIRECT parent: only the range inherited from further up is violated
+                    name += "-vs-ancestor-bound"
+                    where["alteration"] = name
             if broken:
                 ncorrupt += 1
+                cfg.kinds.add((name, clause_of(broken), what, len(path), levels))
                 if not cfg.sample and len(path) > 1:
                     cfg.sample = dict(where, container=cfg.tag(), history=[list(map(repr, o)) for o in h], walker=broken)
                 if not rejected:
@@ -304,7 +466,235 @@ def run_config(args):
     for sig in chosen:
         e, c, r = sweep(cfg, states[sig], pkg_check, failures)
         evals, ncorrupt, refused = evals + e, ncorrupt + c, refused + r
-    return evals, ncorrupt, refused, len(chosen), len(seen_shapes), failures, cfg.sample
+    return {"evals": evals, "ncorrupt": ncorrupt, "refused": refused, "trees": len(chosen), "failures": failures,
+            "sample": cfg.sample, "kinds": cfg.kinds}
+
+
+# ------------------------------------------------- Part 2d / Part 3: deep trees
+class DeepConfig(Config):
+    """Trees of a wanted number of levels over a GAPPED key universe: the tree
+    keys are every second value of the universe, so a free value lies between
+    any two neighbouring keys, below the smallest and above the largest."""
+    NMAX = 40
+
+    def __init__(self, fam, kind, impl, sizes):
+        Config.__init__(self, fam, kind, impl, sizes)
+        self.set_n(self.NMAX)
+
+    def set_n(self, n):
+        self.universe = H.keys_of(self.fam, 2 * n + 3)
+        self.keys = self.universe[1:2 * n + 1:2]
+        self.candidates = self.universe + ([-1] if self.fam[0] in "ILO" else []) + ([None] if self.fam[0] == "O" else [])
+
+    def stray(self):
+        b = self.leafcls()
+        k = self.universe[-1]                             # a free value above every key
+        b.add(k) if self.is_set else b.__setitem__(k, self.vals[0])
+        return b
+
+    def levels(self, h):
+        return H.walk(self.build(h), self.is_set)[2]
+
+    def deep_histories(self):
+        """-> [(label, n keys used, fill, thinning)]: for ascending and descending fills the smallest number of keys that
+        gives 2, 3 and 4 levels; the 4-level fills also thinned (every other key / lower half / upper half / middle
+        deleted) where that leaves >= 3 levels."""
+        put = (lambda k: ("add", k)) if self.is_set else (lambda k: ("setitem", k, self.vals[0]))
+        rem = (lambda k: ("remove", k)) if self.is_set else (lambda k: ("delitem", k))
+        self.set_n(self.NMAX)
+        out = []
+        for order in ("asc", "desc"):
+            want = [2, 3, 4]
+            for n in range(2, self.NMAX + 1):
+                ks = self.keys[:n] if order == "asc" else self.keys[:n][::-1]
+                fill = tuple(put(k) for k in ks)
+                lv = self.levels(fill)
+                if lv not in want:
+                    continue
+                want.remove(lv)
+                out.append(("%s-fill-%d-levels" % (order, lv), n, fill, ()))
+                if lv == 4:
+                    srt = sorted(ks)
+                    for tname, gone in (("every-other", srt[1::2]), ("lower-half", srt[:n // 2]), ("upper-half", srt[n // 2:][1:]),
+                                        ("middle", srt[n // 4:n - n // 4])):
+                        thin = tuple(rem(k) for k in gone)
+                        if self.levels(fill + thin) >= 3:
+                            out.append(("%s-fill-4-levels-thinned-%s" % (order, tname), n, fill, thin))
+                if not want:
+                    break
+        return out
+
+
+def run_deep(args):
+    """Part 2d for one configuration"""
+    fam, kind, impl, sizes = args
+    from BTrees.check import check as pkg_check
+    cfg = DeepConfig(fam, kind, impl, sizes)
+    failures = []
+    evals = ncorrupt = refused = trees = 0
+    for label, n, fill, thin in cfg.deep_histories():
+        cfg.set_n(n)
+        e, c, r = sweep(cfg, fill + thin, pkg_check, failures, deep=True)
+        evals, ncorrupt, refused, trees = evals + e, ncorrupt + c, refused + r, trees + 1
+    return {"evals": evals, "ncorrupt": ncorrupt, "refused": refused, "deep_trees": trees, "failures": failures,
+            "deep_sample": cfg.sample, "kinds": cfg.kinds}
+
+
+def is_ghost(o):
+    return o._p_changed is None
+
+
+def db_cases(cfg, pkg_check, failures):
+    """Part 3 for one configuration -> (cases, cases with >= 1 ghost, stored trees not judged, distinct patterns)"""
+    from rtc import stubdb
+    is_set = cfg.is_set
+    cases = ghostly = skipped = 0
+    patterns = set()
+    sample = None
+    rng = random.Random(H.seed() * 7919 + hash((cfg.fam, cfg.kind, cfg.impl, cfg.sizes)) % 1000)
+    for label, n, fill, thin in cfg.deep_histories():
+        for segments in ([fill + thin], [fill, thin]) if thin else ([fill],):
+            st = stubdb.Storage()
+            w = st.open()
+            t = cfg.cls()
+            oid = w.add(t)
+            for seg in segments:
+                for op in seg:
+                    H.apply_impl(t, op)
+                w.commit()
+            expected = H.contents(t, is_set)
+            flat = [list(map(repr, o)) for seg in segments for o in list(seg) + [("commit",)]]
+            # an independent reader on a connection of its own: is what was stored a well-formed tree with these contents?
+            try:
+                c, _, levels = H.walk(st.open().get(oid), is_set)
+            except H.Damage:
+                c = None
+            if c != expected:
+                skipped += 1                              # the stored tree itself is damaged: C04 / C06, not judged here
+                continue
+
+            def fresh():
+                rd = st.open()
+                return rd, rd.get(oid)
+
+            def loaded():
+                rd, rt = fresh()
+                H.walk(rt, is_set)
+                return rd, rt
+
+            def everything(rt):
+                nodes, leaves = collect(rt)
+                return nodes + leaves
+
+            def fresh_all_ghosts():
+                rd, rt = fresh()
+                return rd, rt, None
+
+            def only_root_loaded():
+                rd, rt = fresh()
+                rt._p_activate()
+                return rd, rt, None
+
+            def none_ghost():
+                rd, rt = loaded()
+                return rd, rt, []
+
+            def writer(how):
+                def prepare():
+                    w.sweep(how)
+                    return w, t, None
+                return prepare
+
+            def deactivated(select):
+                def prepare():
+                    rd, rt = loaded()
+                    objs = everything(rt)
+                    chosen = [(p, o) for p, o in objs if select(p, o, type(o) is type(rt))]
+                    del objs
+                    for p, o in chosen:
+                        o._p_deactivate()
+                    return rd, rt, [list(p) for p, o in chosen]
+                return prepare
+
+            modes = [("all-ghosts:fresh-connection", fresh_all_ghosts), ("only-root-loaded:fresh-connection", only_root_loaded),
+                     ("none-ghost", none_ghost), ("all-ghosts:writer-cache-minimized", writer("minimize")),
+                     ("all-ghosts:writer-deactivated", writer("deactivate")),
+                     ("all-leaves-ghosts", deactivated(lambda p, o, interior: not interior)),
+                     ("all-interior-ghosts", deactivated(lambda p, o, interior: interior)),
+                     ("all-interior-below-root-ghosts", deactivated(lambda p, o, interior: interior and p != ()))]
+            paths = [(p, type(o) is type(t)) for p, o in everything(loaded()[1])]
+            for p, interior in paths:
+                what = "root" if p == () else "interior-node" if interior else "leaf"
+                modes.append(("one-ghost:" + what, deactivated(lambda q, o, i, p=p: q == p)))
+            for d in range(1, levels):
+                modes.append(("one-level-ghosts", deactivated(lambda q, o, i, d=d: len(q) == d)))
+            for _ in range(4):
+                pick = set(p for p, _ in paths if rng.random() < 0.4)
+                modes.append(("seeded-subset-ghosts", deactivated(lambda q, o, i, pick=pick: q in pick)))
+            for mode, prepare in modes:
+                for first in ("_check()", "check()"):
+                    H.tick()
+                    conn, rt, ghost_paths = prepare()
+                    nghost = sum(is_ghost(o) for o in conn.nodes())
+                    calls = {"_check()": rt._check, "check()": lambda: pkg_check(rt)}
+                    order = [first] + [x for x in calls if x != first]
+                    says = {}
+                    for name in order:
+                        try:
+                            calls[name]()
+                            says[name] = "accepted"
+                        except AssertionError as e:
+                            says[name] = "rejected: %s" % (str(e)[:200],)
+                        except Exception as e:
+                            says[name] = "raised %s: %s" % (type(e).__name__, str(e)[:200])
+                    cases += 1
+                    if mode != "none-ghost" and (ghost_paths is None or ghost_paths):
+                        ghostly += 1
+                        patterns.add((label, len(segments), mode, repr(ghost_paths)))
+                    if sample is None and levels == 4 and mode == "one-ghost:interior-node":
+                        sample = {"container": cfg.tag(), "history": flat, "levels": levels, "mode": mode,
+                                  "deactivated_paths": ghost_paths, "called_first": first, "checkers": dict(says)}
+                    for name in order:
+                        if says[name] == "accepted":
+                            continue
+                        rank = "first" if name == first else "after-" + first
+                        if says[name].startswith("rejected"):
+                            clause, what = "valid-rejected", "db:%s:%s-%s" % (mode, name, rank)
+                        else:
+                            clause, what = "valid-raised", "db:%s:%s-%s:%s" % (mode, name, rank, says[name].split()[1].rstrip(":"))
+                        cfg.fail(failures, clause, what,
+                                 "a %d-level tree stored through the stub database and committed (%s), ghost pattern '%s' (deactivated "
+                                 "paths %s; %d ghosts in the connection before the call), checkers called in the order %s: %s"
+                                 % (levels, label, mode, ghost_paths, nghost, order, says),
+                                 [], history_with_commits=flat, levels=levels, mode=mode, deactivated_paths=ghost_paths,
+                                 call_order=order, checkers=says)
+    return cases, ghostly, skipped, patterns, sample
+
+
+def run_db(args):
+    """Part 3 for one configuration, in a child of its own: a crash of the code under test on a ghost is an observation"""
+    fam, kind, impl, sizes = args
+    from BTrees.check import check as pkg_check
+    cfg = DeepConfig(fam, kind, impl, sizes)
+
+    def body():
+        failures = []
+        cases, ghostly, skipped, patterns, sample = db_cases(cfg, pkg_check, failures)
+        return cases, ghostly, skipped, len(patterns), sample, failures
+    res = H.guarded(body, timeout=300)
+    if res[0] == "crash":
+        f = Failure(key="checkers:%s:%s:valid-crash:db:signal-%d" % (impl, kind, res[1]),
+                    desc="%s: the interpreter died (signal %d) while a checker ran on a stored tree with ghost nodes, in case number %d "
+                         "of rtc.checkers_rt.db_cases" % (cfg.tag(), res[1], res[2]),
+                    repro={"family": fam, "kind": kind, "impl": impl, "sizes": list(sizes), "case_number": res[2]})
+        return {"evals": res[2], "failures": [f]}
+    cases, ghostly, skipped, npatterns, sample, failures = res[1]
+    return {"evals": cases, "db_cases": cases, "db_ghostly": ghostly, "db_skipped": skipped, "db_patterns": npatterns,
+            "db_sample": sample, "failures": failures}
+
+
+def run_job(job):
+    return {"classic": run_config, "deep": run_deep, "db": run_db}[job[0]](job[1:])
 
 
 def main():
@@ -313,6 +703,7 @@ def main():
     a = ap.parse_args()
     qs = H.tier() == "quick"
     n_random, exh, max_states = (20, 2, 30) if qs else (300, 3, 300)
+    deep_sizes = ((2, 2), (2, 3), (3, 3)) if qs else ((2, 2), (2, 3), (3, 2), (3, 3), (4, 3))
     s = Standin(name="checkers_rt",
                 bound="per family, BTree and TreeSet, C and Python, node sizes (3,3),(2,2): accept = after every call of ordered / reversed / "
                       "thinned fills of 0..12 keys, every history of <=%d set/del calls over 5 keys and %d seeded histories of 20..40 calls; "
@@ -320,25 +711,49 @@ def main():
                       "replace each key by each of 14..16 candidate values, empty it, drop its next pointer, redirect it to every other leaf "
                       "and to a stray bucket; on every interior node replace each separator by each candidate, swap adjacent separators, "
                       "point firstbucket at every other leaf / a stray bucket, replace each child by a node of the other kind, empty the node; "
-                      "each applied alone through __setstate__ of that node" % (exh, n_random, max_states),
+                      "each applied alone through __setstate__ of that node.  DEEP (node sizes %s): the trees of 2, 3 and 4 levels reached by "
+                      "the shortest ascending and the shortest descending fill over keys that leave a free value between neighbours, and the "
+                      "4-level fills thinned in four ways (>= 3 levels left): the same catalogue with every value of the universe as candidate "
+                      "on EVERY leaf and interior node (every position of every level), plus an empty node of the tree's class (under "
+                      "bottom-level nodes also an empty leaf linked to its successor) inserted at every position 0..len(children) of every "
+                      "interior node with an in-range separator; containment violations visible only against the range inherited from "
+                      "ancestors are keyed separately.  DATABASE (rtc.stubdb, same trees, thinned ones committed once or before and after "
+                      "the thinning): both checkers, each called first in turn, on a fresh connection (all ghosts / only the root loaded / "
+                      "all loaded), on the writer after cache.minimize() and after _p_deactivate() of every node, and on a loaded reader with "
+                      "exactly one node deactivated (each node and leaf in turn), each level, all leaves, all interior nodes (with / without "
+                      "the root), 4 seeded subsets" % (exh, n_random, max_states, ",".join("(%d,%d)" % x for x in deep_sizes)),
                 rule="case = one (tree, alteration) pair judged by the walker and both checkers, or one call of a history followed by both "
-                     "checkers; distinct non-trivial = alterations that the walker finds to break one of the five clauses",
-                functions=["BTrees.check.check", "Checker.check_sorted", "Walker.walk", "_Tree._check", "BTree_check_inner"])
-    jobs = [(fam, kind, impl, sizes, n_random, exh, max_states)
+                     "checkers, or one (stored tree, ghost pattern, call order) with both checkers; distinct non-trivial = alterations that "
+                     "the walker finds to break one of the five clauses + distinct (stored tree, ghost pattern) pairs with >= 1 ghost",
+                functions=["BTrees.check.check", "Checker.check_sorted", "Walker.walk", "crack_btree", "crack_bucket", "_Tree._check",
+                           "BTree_check_inner"])
+    jobs = [("classic", fam, kind, impl, sizes, n_random, exh, max_states)
             for fam in H.fams() for kind in ("BTree", "TreeSet") for impl in ("c", "py") for sizes in ((3, 3), (2, 2))]
+    for part in ("deep", "db"):
+        jobs += [(part, fam, kind, impl, sizes)
+                 for fam in H.fams() for kind in ("BTree", "TreeSet") for impl in ("c", "py") for sizes in deep_sizes]
     ctx = multiprocessing.get_context("fork")
     with cf.ProcessPoolExecutor(max_workers=min(16, os.cpu_count() or 1, len(jobs)), mp_context=ctx) as ex:
-        results = list(ex.map(run_config, jobs))
-    refused = trees = 0
-    for evals, ncorrupt, r, ntrees, nshapes, failures, sample in results:
-        s.evaluations += evals
-        s.distinct_nontrivial += ncorrupt
-        refused += r
-        trees += ntrees
-        s.failures.extend(failures)
-        if sample and not s.samples:
-            s.samples.append(sample)
-    s.samples.append({"trees_swept": trees, "alterations_refused_by_setstate": refused})
+        results = list(ex.map(run_job, jobs))
+    tot = {}
+    kinds = set()
+    samples = {}
+    for r in results:
+        s.evaluations += r["evals"]
+        s.distinct_nontrivial += r.get("ncorrupt", 0) + r.get("db_patterns", 0)
+        s.failures.extend(r["failures"])
+        kinds |= r.get("kinds", set())
+        for k in ("refused", "trees", "deep_trees", "db_cases", "db_ghostly", "db_skipped"):
+            tot[k] = tot.get(k, 0) + r.get(k, 0)
+        for k in ("sample", "deep_sample", "db_sample"):
+            if r.get(k) and k not in samples:
+                samples[k] = r[k]
+    s.samples = [samples[k] for k in ("sample", "deep_sample", "db_sample") if k in samples]
+    deep_kinds = sorted(set((name, clause) for name, clause, what, depth, levels in kinds if levels >= 3))
+    s.samples.append({"trees_swept": tot["trees"], "deep_trees_swept": tot["deep_trees"], "alterations_refused_by_setstate": tot["refused"],
+                      "corrupting_alteration_kinds_on_trees_of_3_or_more_levels": ["%s:%s" % k for k in deep_kinds],
+                      "database_cases": tot["db_cases"], "database_cases_with_ghosts": tot["db_ghostly"],
+                      "stored_trees_not_judged_because_the_reader_found_them_damaged": tot["db_skipped"]})
     write_standin(a.out, s)
 
 
